@@ -83,7 +83,10 @@ def universe_accessor(chk, pid):
     for w in S.events:
         if w.kind == "write" and is_sliced(w.value):
             cache = w.field
-    chk.need(cache is not None, "StrategyBase.universe no longer computes _universe.loc[: now]")
+    if cache is None:
+        chk.ob("C04.R3", False, CORE, host, "universe-windowed", "the universe handed to algos holds only rows up to now", where=fi.where, expected="_universe.loc[: now]",
+               found="; ".join(short(v, 80) for _, v in S.return_cases()))
+        return
     key_field = None
     for w in S.writes(None, SELF):
         if canon(w.value) == canon(now):
